@@ -18,6 +18,8 @@ structure Facts where
   commitRemembersFailure : Bool
   /-- `VirtualTable.Commit` remembers a failed storage commit (`commitFailed`); `Begin`, `Cursor.Filter` and `Vacuum` reopen the tree from the bucket first (`reopenAfterFailedCommit`) -/
   failedCommitReopens : Bool
+  /-- sqlite `BestIndex`: a constraint whose collation is not BINARY is handed on as `OpIgnore` -/
+  bestIndexSkipsOtherCollations : Bool
   /-- `moveMergedRoots`: per parent, order of `s.merged.Store` and `DeleteObjectWithContext` -/
   retireOrder : List String
   /-- `moveMergedRoots`: `if newRoot == key { continue }` -/
@@ -61,6 +63,20 @@ structure Facts where
   /-- connection attributes (sqlite/vtable.go, s3db_conn.go, vtable_common.go `updateTime`) -/
   beginFixesWriteTime : Bool
   endOfTxReleasesWriteTime : Bool
+  /-- sqlite `VirtualTable.Begin` asks the table first and pins the clock time only when the table has accepted the transaction; the read-only `Sync` ends the table's transaction -/
+  beginAsksTableFirst : Bool
+  /-- `s3db_refresh` is refused while the connection's write time was fixed by an open transaction -/
+  refreshRefusedAfterWrite : Bool
+  /-- `VirtualTable.Update` refuses a new key that is not the old key, value and storage class (F77) -/
+  updateRefusesKeyChange : Bool
+  /-- `New`: a blank after `=` is not part of an option value; sizes are read base 10 (F59) -/
+  optionValuesAsWritten : Bool
+  /-- `New`: column names SQLite would refuse to declare are refused by `convertSchema`, before `OpenKV` (F61) -/
+  declarableCheckedBeforeOpen : Bool
+  /-- `ConnCursor.Filter` resets `eof` (F75) -/
+  connFilterResetsEof : Bool
+  /-- `DeleteHistoricVersions`: after deleting the empty current version the handle stops naming it (F71) -/
+  emptyVersionForgotten : Bool
   connUpdateParsesBeforeAssigning : Bool
   /-- `ConnCursor.Column` returns nothing for an attribute an UPDATE does not mention -/
   connColumnHonoursNoChange : Bool
